@@ -102,6 +102,17 @@ def toUint64 : F64 → Nat
     else (if t < 2^64 then t else 2^63)
   | _ => 2^63
 
+/-- Go's `int64(x)` as compiled by go1.23 on amd64 (CVTTSD2SQ, measured): truncation toward zero for `|x| < 2^63`;
+    `-2^63` for everything else incl. NaN, ±Inf. (Unlike `uint64(x)` of a NEGATIVE x, which the language leaves to the
+    implementation — arm64 saturates to 0 where amd64 wraps —, this is defined by the language for every value that is
+    representable: F44.) -/
+def toInt64 : F64 → Int
+  | .fin neg m e =>
+    let t : Nat := if e ≥ 0 then m <<< e.toNat else m >>> (-e).toNat
+    if neg then (if t ≤ 2^63 then -(t : Int) else -(2^63 : Int))
+    else (if t < 2^63 then (t : Int) else -(2^63 : Int))
+  | _ => -(2^63 : Int)
+
 -- shortest-digits formatting ---------------------------------------------------------------------
 
 /-- `m·2^e` as a fraction -/
@@ -222,6 +233,22 @@ def parseUintAux : List Char → Nat → Nat
 /-- `u, _ := strconv.ParseUint(s, 10, 64)`: decimal digits only (no sign, no underscore);
     2^64-1 on overflow; 0 on syntax error -/
 def parseUint (s : String) : Nat := parseUintAux s.toList 0
+
+/-- `i, _ := strconv.ParseInt(s, 10, 64)`: an optional sign, then decimal digits (no underscore); ±(2^63-1 / 2^63) on
+    overflow; 0 on syntax error (also for a lone sign and the empty string) -/
+def parseInt (s : String) : Int :=
+  let mag (cs : List Char) (neg : Bool) : Int :=
+    match cs with
+    | [] => 0
+    | _ =>
+      let un := parseUintAux cs 0
+      if neg then (if un > 2^63 then -(2^63 : Int) else -(un : Int))
+      else (if un ≥ 2^63 then (2^63 : Int) - 1 else (un : Int))
+  match s.toList with
+  | [] => 0
+  | '+' :: r => mag r false
+  | '-' :: r => mag r true
+  | cs => mag cs false
 
 /-- `b, _ := strconv.ParseBool(s)` -/
 def parseBool (s : String) : Bool :=
